@@ -292,11 +292,19 @@ func samplerPreset(i int64) (any, string) {
 			{Name: "big", SampleRate: 1 << 30, Conditions: []*config.RulesBasedSamplerCondition{{Field: "f1", Operator: config.EQ, Value: "x"}}},
 			{Name: "keepall", SampleRate: 1},
 		}}, "RulesBasedSampler"
+	case 11:
+		// unusual but legal: a matching non-drop rule without a SampleRate (0)
+		return &config.RulesBasedSamplerConfig{Rules: []*config.RulesBasedSamplerRule{
+			{Name: "norate", Conditions: []*config.RulesBasedSamplerCondition{{Field: "f1", Operator: config.EQ, Value: "w"}}},
+			{Name: "norate2", SampleRate: 0, Conditions: []*config.RulesBasedSamplerCondition{{Field: "f1", Operator: config.EQ, Value: "x"}}},
+			{Name: "two", SampleRate: 2, Conditions: []*config.RulesBasedSamplerCondition{{Field: "f1", Operator: config.EQ, Value: "y"}}},
+			{Name: "keepall", SampleRate: 1},
+		}}, "RulesBasedSampler"
 	}
 	return &config.DeterministicSamplerConfig{SampleRate: 1}, "DeterministicSampler"
 }
 
-const nSamplerPresets = 11
+const nSamplerPresets = 12
 
 func us(n int64) time.Duration { return time.Duration(n) * time.Microsecond }
 
